@@ -338,7 +338,7 @@ fn special_identifiers<S: ShortGroupSignatureScheme>(em: &mut Emitter, suite: &s
 /// published value is the old value divided by (y+α) for *every* identifier of the batch, equals the value reached by
 /// revoking the same identifiers in small batches, and no handle of a revoked identifier verifies against it
 fn large_batches<S: ShortGroupSignatureScheme>(em: &mut Emitter, rng: &mut Rng, suite: &str) {
-    let sizes: Vec<usize> = if em.thorough() { vec![127, 129, 255, 256, 257, 300, 511, 513, 1030] } else { vec![257, 300] };
+    let sizes: Vec<usize> = if em.thorough() { vec![33, 65, 70, 127, 129, 255, 256, 257, 300, 511, 513, 1030] } else { vec![70, 257, 300] };
     for n in sizes {
         let schema = basic_schema();
         let (_public, mut issuer) = Issuer::<S>::new(&schema);
@@ -360,6 +360,25 @@ fn large_batches<S: ShortGroupSignatureScheme>(em: &mut Emitter, rng: &mut Rng, 
         if !ok {
             em.count("large-batch:issuance-failed");
             continue;
+        }
+        // a refused long batch (bad entry last: unknown identifier / duplicate of the first) changes nothing
+        for (bad_name, bad) in [("unknown-last", RevocationClaim::from("never-issued")), ("duplicate-last", RevocationClaim::from(ids[0].as_str()))] {
+            let mut refused: Issuer<S> = serde_json::from_str(&serde_json::to_string(&issuer).unwrap()).unwrap();
+            let mut batch: Vec<RevocationClaim> = ids.iter().map(|i| RevocationClaim::from(i.as_str())).collect();
+            batch.push(bad);
+            let before_v = refused.revocation_registry.value;
+            let before_a = refused.revocation_registry.active.clone();
+            let before_e = refused.revocation_registry.elements.clone();
+            em.oracle_case(&format!("{} long-refused-batch {} {}", suite, n, bad_name));
+            match call(|| refused.revoke_credentials(&batch)) {
+                Out::Err => {
+                    if refused.revocation_registry.value.0 != before_v.0 || refused.revocation_registry.active != before_a || refused.revocation_registry.elements != before_e {
+                        em.violation("long-refused-batch-changed-state", format!("{}: a refused batch of {} identifiers ({}) changed the registry (value moved: {}, active {} → {})", suite, n + 1, bad_name, refused.revocation_registry.value.0 != before_v.0, before_a.len(), refused.revocation_registry.active.len()), json!({"suite": suite, "batch_size": n + 1, "bad": bad_name}));
+                    }
+                }
+                Out::Ok(()) => em.violation("bad-revoke-accepted", format!("{}: a batch of {} identifiers with a bad last entry ({}) was accepted", suite, n + 1, bad_name), json!({"suite": suite, "batch_size": n + 1, "bad": bad_name})),
+                Out::Panic(m) => em.violation("revoke-panic", format!("{}: revoke_credentials panicked on a long batch: {}", suite, m), json!({"suite": suite})),
+            }
         }
         let mut small: Issuer<S> = serde_json::from_str(&serde_json::to_string(&issuer).unwrap()).unwrap();
         let before = issuer.revocation_registry.value;
